@@ -37,6 +37,23 @@ HARNESSES = [
    ('manifest', 'manifest', ', function-like or not, name character',
     'add_manifest called (once, with the name) iff local .h file, not ignored, vis <= min_vis, not function-like'))
 ] + [
+ {'id': 'c04_gate_function',
+  'property': 'C04',
+  'src': 'c04_gate_function.cxx',
+  'entry': 'harness_c04_gate_function',
+  'tus': [_B, 'src/interrogate/typeManager.cxx', 'src/cppparser/cppFile.cxx', 'src/dtoolutil/filename.cxx', 'src/cppparser/cppDeclaration.cxx',
+          'src/cppparser/cppType.cxx', 'src/cppparser/cppInstance.cxx'],
+  'cut': ['_ZN11TypeManager18involves_protectedEP7CPPType', '_ZN11TypeManager25involves_rvalue_referenceEP7CPPType',
+          '_ZNK18InterrogateBuilder17in_ignoreinvolvedEP7CPPType', '_ZN11TypeManager17get_function_nameB5cxx11EP11CPPInstance',
+          '_ZN18InterrogateBuilder23update_function_commentEP11CPPInstanceP8CPPScope',
+          '_ZN18InterrogateBuilder12get_functionEP11CPPInstanceNSt7__cxx1112basic_stringIcSt11char_traitsIcESaIcEEEP13CPPStructTypeP8CPPScopeiRKS7_'],
+  'skip_ctors': ['interrogateBuilder.cxx', 'typeManager.cxx', 'cppFile.cxx', 'filename.cxx', 'cppDeclaration.cxx', 'cppType.cxx', 'cppInstance.cxx'],
+  'desc': 'export gate InterrogateBuilder::scan_function(CPPInstance*) for an unscoped (global) function',
+  'domain': _FILE_DOMAIN + ', template-ness, all 32 storage-class bits, symbolic answers of involves_protected / in_ignoreinvolved / '
+            'involves_rvalue_reference',
+  'oracle': 'get_function(function, F_global, global scope) called once iff local .h file, not ignored, not a template, vis <= min_vis, '
+            'neither static nor deleted, no protected / ignoreinvolved / rvalue-reference type in the signature',
+  'bounds': {'quick': {'unwind': 8, 'unwindset': dict(_GATE_LOOPS), 'cap': 600}}},
  {'id': 'c04_command_lines',
   'property': 'C04',
   'src': 'c04_command_file.cxx',
@@ -65,12 +82,14 @@ HARNESSES = [
   'property': 'C04',
   'src': 'c04_command_file.cxx',
   'entry': 'harness_c04_param_list',
-  'tus': [_B], 'skip_ctors': ['interrogateBuilder.cxx'],
-  'cut': SSO_ONLY,
+  'tus': [_B], 'skip_ctors': ['interrogateBuilder.cxx'], 'models': ['noinline.c'], 'tuflags': ['-fno-inline'],
+  'cut': SSO_ONLY + ['_ZN18InterrogateBuilder10do_commandERKNSt7__cxx1112basic_stringIcSt11char_traitsIcESaIcEEES7_',
+                     '_ZNSt8_Rb_treeINSt7__cxx1112basic_stringIcSt11char_traitsIcESaIcEEES5_St9_IdentityIS5_ESt4lessIS5_ESaIS5_EE16_M_insert_uniqueIS5_EESt4pairISt17_Rb_tree_iteratorIS5_EbEOT_'],
   'desc': 'InterrogateBuilder::insert_param_list splits the parameters of ignorefile/ignoremember/noinclude on blanks',
   'domain': 'parameter string of 0..LMAX bytes over {a, b, space, tab}',
-  'oracle': 'every maximal non-blank run is in the set, nothing else, never an empty entry',
-  'bounds': {'quick': {'defs': {'LMAX': 4}, 'unwind': 8, 'cap': 600}}},
+  'oracle': 'the entries handed to set::insert are exactly the maximal non-blank runs, in order; never an empty entry',
+  'bounds': {'quick': {'defs': {'LMAX': 5}, 'unwind': 9, 'cap': 600},
+             'thorough': {'defs': {'LMAX': 7}, 'unwind': 11, 'cap': 3000}}},
 ]
 
 PROPERTY_INFO = {'C04': {'level': 'model_checking',
